@@ -193,6 +193,17 @@ func main() {
 						forms = []string{""} // the function is known and has no plain branch
 					}
 				}
+				if os.Getenv("ZCHECK_RETURNS") == "alleffects" {
+					forms = nil
+					seen := map[string]bool{}
+					for _, e := range p.Effects(fn) {
+						if tableEffect(e) && !seen[e.Canon] {
+							seen[e.Canon] = true
+							forms = append(forms, e.Canon)
+						}
+					}
+					sort.Strings(forms)
+				}
 				if os.Getenv("ZCHECK_RETURNS") == "chans" {
 					forms = nil
 					if fn.Parent() == nil {
